@@ -4,6 +4,7 @@ package dyntpl
 
 import (
 	"encoding/hex"
+	"reflect"
 	"strconv"
 )
 
@@ -199,5 +200,34 @@ func VerifCtxShape(ctx *Ctx) []byte {
 	for j := 0; j < len(ctx.vars) && j < ctx.ln; j++ {
 		_ = j
 	}
+	// Variable slots beyond ln (all of them after a reset): nothing but the fields that are overwritten
+	// whenever a slot is taken (key, inspector, counter value) may be left in them.
+	dirtyVars := 0
+	all := ctx.vars[:cap(ctx.vars)]
+	for j := ctx.ln; j < len(all); j++ {
+		sv := reflect.ValueOf(&all[j]).Elem()
+		for k := 0; k < sv.NumField(); k++ {
+			switch name := sv.Type().Field(k).Name; name {
+			case "key", "ins", "cntr":
+			default:
+				if f := sv.Field(k); (f.Kind() == reflect.Slice && f.Len() > 0) || (f.Kind() != reflect.Slice && !f.IsZero()) {
+					dirtyVars++
+				}
+			}
+		}
+	}
+	i("varsDirty", dirtyVars)
+	// Fields this dump does not know by name (added after it was written): zero or not.
+	cv := reflect.ValueOf(ctx).Elem()
+	for k := 0; k < cv.NumField(); k++ {
+		if name := cv.Type().Field(k).Name; !verifKnownCtxFields[name] {
+			b("?"+name, !cv.Field(k).IsZero())
+		}
+	}
 	return dst
 }
+
+var verifKnownCtxFields = map[string]bool{"vars": true, "ln": true, "chQB": true, "bnd": true, "noesc": true, "buf": true, "bufS": true, "bufI": true,
+	"bufX": true, "bufA": true, "bufLC": true, "bufMO": true, "bufCB": true, "rl": true, "dfr": true, "ipv": true, "ipvl": true, "brkD": true, "w": true,
+	"wl": true, "incD": true, "kv": true, "kvl": true, "BufAcc": true, "Buf": true, "Buf1": true, "Buf2": true, "BufB": true, "BufI": true, "BufU": true,
+	"BufF": true, "BufT": true, "BufX": true, "Err": true}
